@@ -54,32 +54,45 @@ pub struct Spelling {
     pub mask_first: bool,
     /// array access: index pushed before the hash
     pub index_first: bool,
+    /// uniform field accessor: the right shift is emitted for the field at bit 0 as well (shr(0, sload(k)) & mask)
+    pub shift_zero: bool,
 }
 
-pub const SPELLINGS: [Spelling; 4] = [
+pub const SPELLINGS: [Spelling; 5] = [
     Spelling {
         mul_write: true,
         div_read: false,
         mask_first: false,
         index_first: false,
+        shift_zero: false,
     },
     Spelling {
         mul_write: false,
         div_read: false,
         mask_first: true,
         index_first: true,
+        shift_zero: false,
     },
     Spelling {
         mul_write: true,
         div_read: true,
         mask_first: true,
         index_first: false,
+        shift_zero: false,
     },
     Spelling {
         mul_write: false,
         div_read: true,
         mask_first: false,
         index_first: true,
+        shift_zero: false,
+    },
+    Spelling {
+        mul_write: false,
+        div_read: false,
+        mask_first: false,
+        index_first: false,
+        shift_zero: true,
     },
 ];
 
@@ -174,7 +187,13 @@ fn packed_read(key: Vec<Tok>, k: usize, w: usize, sp: &Spelling) -> Vec<Tok> {
     let mut load = key;
     load.push(o(op::SLOAD));
     let shifted: Vec<Tok> = if k == 0 {
-        load
+        if sp.shift_zero {
+            let mut t = load;
+            t.extend([p(0), o(op::SHR)]);
+            t
+        } else {
+            load
+        }
     } else if sp.div_read {
         // div(sload, 2^k): divisor pushed first, dividend on top
         let mut t = vec![pu(U::pow2(bits))];
@@ -303,7 +322,11 @@ pub fn fragments(var: &Var, mode: Mode, sp: &Spelling) -> Vec<Vec<Tok>> {
         }
         Kind::AddressWord => {
             if reads {
-                let mut t = and_mask(addr_mask(), sp, vec![pu(s), o(op::SLOAD)]);
+                let mut loaded = vec![pu(s), o(op::SLOAD)];
+                if sp.shift_zero {
+                    loaded.extend([p(0), o(op::SHR)]);
+                }
+                let mut t = and_mask(addr_mask(), sp, loaded);
                 t.extend(ret_top());
                 out.push(t);
             }
@@ -318,6 +341,9 @@ pub fn fragments(var: &Var, mode: Mode, sp: &Spelling) -> Vec<Vec<Tok>> {
                 let (mut t, _) = mapping_key(s, keys, sp, 0);
                 t.push(o(op::SLOAD));
                 if *address_value {
+                    if sp.shift_zero {
+                        t.extend([p(0), o(op::SHR)]);
+                    }
                     t = and_mask(addr_mask(), sp, t);
                 }
                 t.extend(ret_top());
